@@ -235,12 +235,12 @@ Definition env_witness : env_shape :=
 Theorem env_collision_refuted :
   NoDup (map ef_name (e_fields env_witness)) /\
   env_names_ok env_witness = false /\
-  (exists f, env_init_fn env_witness = Some f /\
-             In (S "MISSING") (fn_params f) /\ In (S "MISSING") (fn_globals f) /\
-             In (S "MISSING") (s_loads (fn_body f))).
+  In (S "MISSING") (fn_params (env_init_fn env_witness)) /\
+  In (S "MISSING") (fn_globals (env_init_fn env_witness)) /\
+  In (S "MISSING") (s_loads (fn_body (env_init_fn env_witness))).
 Proof.
   split; [cbn; constructor; [intros []|constructor]|]. split; [vm_compute; reflexivity|].
-  eexists. split; [vm_compute; reflexivity|]. repeat split; apply mem_str_In; vm_compute; reflexivity.
+  repeat split; apply mem_str_In; vm_compute; reflexivity.
 Qed.
 
 (* ======================================================================== *)
